@@ -208,7 +208,7 @@ Definition repr_dot_row (names : list oname) : option (list str) :=
   let disp := map (fun i => nth i names None) idxs in
   let sans := map (fun i => nth i hs []) idxs in
   let real (nm : oname) := match nm with Some t => negb (str_eqb t dots) | None => true end in
-  let any_display := existsb (fun nm => match nm with Some (_ :: _ as t) => negb (str_eqb t dots)
+  let any_display := existsb (fun nm => match nm with Some ((_ :: _) as t) => negb (str_eqb t dots)
                                                | _ => false end) disp in
   let any_struct := existsb (fun p => real (fst p) && structural_change (fst p) (snd p))
                             (combine disp sans) in
